@@ -16,6 +16,10 @@ package c15
 //      rewritten afterwards, from an indexed batch whose pending writes produce the key set, and from the
 //      db with a rewriting commit injected between two moves.
 //   D  use after Close (documented as invalid): only "error or panic, never silent success".
+//   E  (durable_test.go) histories from the empty store whose alphabet also holds the durable / LSM-level
+//      operations of the production backends: flush, flush+compact, close+reopen on the same MemFS, after every
+//      write group in every committing write mode, with the full observer programme after each of them
+//      (A–C read every version out of pebble's memtable; E reads them out of sstables and a replayed WAL).
 // Schedules are enumerated at operation granularity (every backend call is linearizable: memory takes
 // its RWMutex, pebble commits atomically), real goroutine races are not part of this check.
 
@@ -1347,7 +1351,7 @@ func TestCheck(t *testing.T) {
 	r.SetBudget(budget)
 	start := time.Now()
 	// cumulative shares of the wall budget, proportional to the measured CPU cost of the sections:
-	// quick A 35% B 78% C 100%; thorough A 16% B 58% C(≤3 moves) 72% C(≤4 moves) 100%
+	// quick A 30% B 62% C 80% E 100%; thorough A 11% B 41% C(≤3 moves) 50% C(≤4 moves) 70% E 100%
 	share := func(f float64) { c.secDeadline = start.Add(time.Duration(f * float64(budget) * float64(time.Second))) }
 
 	if pf := os.Getenv("C15_PROF"); pf != "" { // development only
@@ -1365,7 +1369,7 @@ func TestCheck(t *testing.T) {
 	if want("A") {
 		// quick: all maps with ≤ 2 keys + one map per 3-key set; thorough: all maps with ≤ 3 keys + one
 		// map per key set of 4..8 keys
-		share(ev.Pick(r, 0.35, 0.16))
+		share(ev.Pick(r, 0.30, 0.11))
 		c.sectionA(ev.Pick(r, 2, 3), ev.Pick(r, 3, len(K)))
 	}
 
@@ -1389,7 +1393,7 @@ func TestCheck(t *testing.T) {
 			}
 			return class != "triple" || isRepresentative(s)
 		}
-		share(ev.Pick(r, 0.78, 0.58))
+		share(ev.Pick(r, 0.62, 0.41))
 		c.sectionB(bStates, allow, tk, tv)
 	}
 
@@ -1397,13 +1401,17 @@ func TestCheck(t *testing.T) {
 	//    thorough: all 256 key sets with ≤ 3 moves, then key sets of ≤ 3 keys with ≤ 4 moves
 	if !want("C") {
 	} else if r.Quick() {
-		share(1)
+		share(0.80)
 		c.sectionC(keySets(3), 3, 2, 2)
 	} else {
-		share(0.72)
+		share(0.50)
 		c.sectionC(keySets(len(K)), 3, 3, 3)
-		share(1)
+		share(0.70)
 		c.sectionC4(keySets(3))
+	}
+	if want("E") {
+		share(1)
+		c.sectionE(durableFamilies(r.Quick()))
 	}
 	if want("D") {
 		c.sectionD()
@@ -1438,7 +1446,9 @@ func TestCheck(t *testing.T) {
 	batchAtomicity(r)
 	r.Assume = append(r.Assume,
 		"pebble runs on vfs.NewMem(); the on-disk format/FS layer is trusted",
-		"a backend state is a function of the abstract map: every representative is built by direct Puts (and re-used across ≤120 writes), not by replaying the BFS path",
+		"sections A-C: a backend state is a function of the abstract map: every representative is built by direct Puts (and re-used across ≤400 writes), not by replaying the BFS path; "+
+			"section E drops that assumption for histories of ≤3 (thorough: ≤4) write ops from the empty store with flush / flush+compact / reopen in the alphabet "+
+			"(its stores share one block cache per engine version and use a 64 KiB memtable arena; automatic background compactions are left on, so the LSM shape between maintenance operations is pebble's choice)",
 		"differential search: schedules are interleavings of whole interface calls; below that granularity only the commit of an in-memory batch is scheduled (atomic_test.go: every interleaving of the lock acquisitions of a committing writer with a consistent reader or a second writer, "+
 			"db/memory's RWMutex replaced by verif/mc/schedsync through a build overlay); unsynchronised accesses (data races proper) are out of scope",
 		"relative moves (Next/Prev) on an exhausted iterator other than Prev-after-failed-Seek and the first move of a fresh iterator are outside the documented contract: recorded under outside_contract_divergences, never a violation",
